@@ -107,6 +107,18 @@ func (e *Engine) callRaw(fn *ssa.Function, args []Value, env []Value, isInit boo
 	if v, handled := e.intercept(fn, args); handled {
 		return v
 	}
+	if len(e.replaced) > 0 {
+		nm := fn.Name()
+		if fn.Origin() != nil {
+			nm = fn.Origin().Name()
+		}
+		if r, ok := e.replaced[nm]; ok && !e.inReplaced[nm] {
+			e.inReplaced[nm] = true
+			e.h.Stubs["contract:"+nm]++
+			defer func() { e.inReplaced[nm] = false }()
+			return e.invoke(nil, r, args)
+		}
+	}
 	if fn.Synthetic == "package initializer" && (fn.Pkg == nil || !strings.HasPrefix(fn.Pkg.Pkg.Path(), "github.com/akramarenkov/")) {
 		return nil
 	}
